@@ -731,6 +731,34 @@ func targeted(emit func(stream string, t *Y)) {
 		t.Set("handlerOn", Map(E("failure", Map(E("executor", Map(E("type", Str("mail")), E("config", cfg.Clone())))))))
 		emit("targeted:execconfig", t)
 	}
+	// white-space-only commands (steps and handlers, string and list form) and blank command substitutions
+	blanks := []string{" ", "  ", "\t", " \t ", "\n", " echo", "echo ", "\techo hi", "echo\thi"}
+	for _, b := range blanks {
+		for _, cmd := range []*Y{Str(b), List(Str(b)), List(Str(b), Str("x"))} {
+			t := minimalDef()
+			t.Get("steps").L[0].Set("command", cmd.Clone())
+			emit("targeted:blank", t)
+			t = minimalDef()
+			t.Set("handlerOn", Map(E("exit", Map(E("command", cmd.Clone())))))
+			emit("targeted:blank", t)
+		}
+	}
+	for _, sub := range []string{"` `", "`  `", "`\t`", "/tmp/` `", "a ` ` b", "`` ` `", "` echo hi`", "`echo hi `"} {
+		for _, fld := range []string{"logDir", "env", "params", "cond"} {
+			t := minimalDef()
+			switch fld {
+			case "logDir":
+				t.Set("logDir", Str(sub))
+			case "env":
+				t.Set("env", List(Map(E("VQ_A", Str(sub)))))
+			case "params":
+				t.Set("params", Str("P=\""+sub+"\""))
+			case "cond":
+				t.Set("preconditions", List(Map(E("condition", Str(sub)), E("expected", Str("")))))
+			}
+			emit("targeted:blank", t)
+		}
+	}
 	// step-level invalid definitions
 	bad := []*Y{
 		Map(E("name", Str("s1"))),                             // nothing to execute
